@@ -79,8 +79,10 @@ type FileWrite struct {
 	KeepOld bool `json:"keep_old,omitempty"`
 	// Repeat/IntervalUs (bursts only): write the content Repeat more times, IntervalUs apart, while
 	// the burst is in flight - a refresh storm
-	Repeat     int `json:"repeat,omitempty"`
-	IntervalUs int `json:"interval_us,omitempty"`
+	Repeat int `json:"repeat,omitempty"`
+	// Alt, if set, is written instead of Content on every other repetition
+	Alt        string `json:"alt,omitempty"`
+	IntervalUs int    `json:"interval_us,omitempty"`
 }
 
 type PollSpec struct {
@@ -372,8 +374,17 @@ func chainChild() {
 						defer wg.Done()
 						time.Sleep(time.Duration(delay) * time.Microsecond)
 						for n := 0; n <= w.Repeat; n++ {
-							if f, err := os.OpenFile(filepath.Join(dir, w.Name), os.O_WRONLY, 0); err == nil {
-								f.WriteAt([]byte(w.Content), 0)
+							if w.Rename {
+								tmp := filepath.Join(dir, w.Name+".tmp")
+								if os.WriteFile(tmp, []byte(w.Content), 0o644) == nil {
+									os.Rename(tmp, filepath.Join(dir, w.Name))
+								}
+							} else if f, err := os.OpenFile(filepath.Join(dir, w.Name), os.O_WRONLY, 0); err == nil {
+								if w.Alt != "" && n%2 == 1 {
+									f.WriteAt([]byte(w.Alt), 0)
+								} else {
+									f.WriteAt([]byte(w.Content), 0)
+								}
 								f.Close()
 							}
 							if w.Repeat > 0 {
